@@ -36,8 +36,8 @@ CLAIMED.update({
  "C05": _c("proof", "Theorems C05_tags / C05_literal_names / C05_body: for every policy value without AllowUnsafe (tables naming script/style, patterns matching them, modified skip sets included) "
            "and every token list no script/style tag is emitted, nothing is written unescaped, and the raw-text body token after a script/style start or self-closing tag yields nothing; C05_output_tokens states the same of the tokens read back from the output bytes (policies without comments / other raw-text elements).",
            "DESIGN.md section 5 C05", TIE_NOTE, "Coq proof over the loop model + bounded-exhaustive correspondence + marker oracle"),
- "C08": _c("proof", "Theorem C08_skipping_emits_nothing_partial: in the content-skipping state the loop emits nothing but the AddSpace blank (all token lists). Partial: the characterisation of "
-           "that state on well-nested documents is carried by the bounded-exhaustive loop correspondence and the marker oracle.", "DESIGN.md section 5 C08", TIE_NOTE,
+ "C08": _c("proof", "Theorem C08_skipping_emits_nothing_partial: in the content-skipping state the loop emits nothing but the AddSpace blank (all token lists). C08_tree_semantics (induction over trees, Proofs/TreeSem.v): for every well-formed forest without script/style, every policy and matcher interpretation, the loop emits exactly the denotation out_node: a disallowed skip-content element leaves only AddSpace blanks (C08_skipped_content_absent, nesting included), everything else keeps its place; C08_texts: the output texts are exactly the texts outside such elements. Partial: the parse of arbitrary bytes into a forest (tree construction not modelled) "
+           "is carried by the bounded-exhaustive loop correspondence and the marker oracle.", "DESIGN.md section 5 C08", TIE_NOTE,
            "Coq invariant proof over the loop model + bounded-exhaustive correspondence + text-outside-hidden-elements oracle"),
  "C15": _c("proof", "Theorems C15_agree / C15_written_bytes / C15_blank over Entry.v: the four entry points compute the same bytes for non-blank input for every well-behaved writer; blank input is returned unchanged. "
            "Partial: independence of reader chunking holds in the model by construction (the tokenizer sees the concatenation); it is exercised on the implementation by exhaustive chunkings.",
@@ -64,7 +64,7 @@ CLAIMED.update({
            "C07_pass_through: a document that is the canonical serialisation of items the policy leaves alone is returned byte for byte (every policy, every such document; instance C04_sample_doc_unchanged). Partial: documents with comments or raw-text elements (pass-through oracle); explicit entries shadow pattern rules (finding F11).", "DESIGN.md section 5 C07", TIE_NOTE,
            "Coq proof over association-list rule tables + differential correspondence + pass-through oracle on generated conforming documents"),
  "C09": _c("proof", "Theorems C09_stack_invariant / C09_dropped_pair_partial: the closing-tag stack is consulted safely on every token list; a non-void element dropped for lack of attributes is popped by exactly its own end tag, restoring stack, flag and skipping state. "
-           "Partial: the induction over whole well-nested documents is carried by the bounded-exhaustive loop correspondence and the balance oracle.", "DESIGN.md section 5 C09", TIE_NOTE,
+           "C09_output_balanced (induction over trees): for every forest in which every non-void element is opened and closed (script/style, void and self-closing tags included), every policy, the emitted items are well nested; C09_state_restored / C09_bracket: the loop state after a well-formed subtree is the state before it, so a removed start tag takes exactly its own end tag with it and a kept one keeps it. Partial: the parse of arbitrary bytes into a forest (tree construction not modelled): bounded-exhaustive loop correspondence and balance oracle.", "DESIGN.md section 5 C09", TIE_NOTE,
            "Coq invariant proof over the loop model + bounded-exhaustive correspondence + stack-balance oracle on generated trees"),
  "C13": _c("proof", "Theorems C13_rule_order_irrelevant_partial / C13_no_dependence_on_earlier_calls: in the model sanitising is a function of the policy value and the input, and the order in which pattern rules are merged is irrelevant. "
            "Partial: data-race freedom and concurrent = sequential are runtime facts, validated by a race-detector stress run (16 goroutines per shared policy), not proved.", "DESIGN.md section 5 C13", TIE_NOTE,
